@@ -207,10 +207,21 @@ func nmCase(raw json.RawMessage, c *ecase, idx int, nmDir string) {
 		return
 	}
 	defer f.Close()
-	for _, q := range c.Queries {
+	// the same binary seen through a second mapping at another address (another process in a merged profile):
+	// every symbol table lookup is relative to ITS mapping's base
+	f2, err := bu.Open(path, 0x5000, 0x6000, 0, "")
+	if err != nil {
+		run.Violate("nm", "nm-open-error", err.Error(), raw, nil)
+		return
+	}
+	defer f2.Close()
+	for qi, q := range c.Queries {
 		run.Count(fmt.Sprintf("nm|%v|%d", c.Table, q.Q))
 		// the file is ET_EXEC with vaddr 0 mapped at 0x1000: link address = runtime - 0x1000
 		fr, err := f.SourceLine(q.Q + 0x1000)
+		if qi%2 == 1 {
+			fr, err = f2.SourceLine(q.Q + 0x5000)
+		}
 		if err != nil {
 			run.Violate("nm", "nm-error", err.Error(), raw, nil)
 			continue
